@@ -1,11 +1,17 @@
 import RustCcModel.T1.FinalComplete
 import RustCcModel.Proofs.TracingF
 import RustCcModel.Model.Machine
+import RustCcModel.Proofs.InvReach
 /-! # C01 — no premature reclamation
 
 Graph level (proved for every heap, buffer and number of objects): the list a collection pass is
 about to reclaim is closed under predecessors, has no reference from the program and no untraced
-owner. Machine level: a fault-free `collectPass` of the machine computes exactly that list. -/
+owner. Machine level, **for every reachable world** (any program, callbacks, collections, injected panics and their
+unwinding): the hypotheses of the graph theorem follow from the machine invariants `Counts` and `Inv`
+(`Proofs/InvReach.lean`), so whatever a collection pass takes for garbage is referenced by no table entry, no stashed
+clone, no temporary of running code, no untraced field and no field of a dead value, and every pointer to it is a
+traced field of another member of the same set (`reachable_pass_candidates_unreferenced`); and no pointer that exists
+ever points to a freed box (`no_dangling_pointer`). -/
 namespace RustCc.C01
 open T1
 
@@ -82,5 +88,67 @@ example : Exact exG [0, 1, 3, 4] (fun x => if x = 3 then 1 else 0) := by
     match x with
     | 0 | 1 | 2 | 3 | 4 => simp [exG, List.count_cons]
     | n + 5 => simp [exG, List.count_cons]
+
+/-! ## The machine: every reachable world -/
+
+/-- **C01, end to end, at every collection pass of every execution.** Let the machine be about to run a collection
+pass (`collectPass` on top of the stack) in any reachable world. Then every object the pass selects (if its tracing
+does not panic, `collectPass_computes_candidates`) is unreferenced from outside the selected set: no table entry of the
+program, no stashed clone, no pointer held by any frame (temporaries of the running `Cc::drop`s, captured pointers of
+running cleaning actions, …) points to it, and every object `u` with a pointer field to it — traced or untraced,
+its value alive or not — is itself selected and reaches it through a traced field of its live value. -/
+theorem reachable_pass_candidates_unreferenced (c : Cfg) (nH nW nK : Nat) (w : World) (h : Reachable c nH nW nK w)
+    (rest : List Frame) (hs : w.stack = .collectPass :: rest) :
+    ∀ x ∈ candidates { w with stack := rest },
+      (optIds w.H).count x = 0 ∧ w.stash x = 0 ∧ (held rest).count x = 0 ∧
+      (∀ u, u < w.next → x ∈ fieldsOf (w.heap u) →
+        u ∈ candidates { w with stack := rest } ∧ x ∈ (toT1 w u).edges) := by
+  have ha := reachable_all c nH nW nK w h
+  obtain ⟨hc0, hoi0⟩ := pass_setup w rest ha.counts ha.flags ha.inv hs
+  intro x hx
+  obtain ⟨h1, h2, h3, _, _, _⟩ := candidates_unreferenced { w with stack := rest } hc0 hoi0 x hx
+  exact ⟨h1, h2, h3, fun u hu hm => candidates_field_owner { w with stack := rest } hc0 hoi0 x hx u hu hm⟩
+
+/-- Reachability from the program's pointers (table entries, stashed clones, pointers held by frames) through
+any pointer field (traced or not) of allocated objects. -/
+inductive ProgReach (w : World) (st : List Frame) : Id → Prop
+  | table (x) : x ∈ optIds w.H → ProgReach w st x
+  | stash (x) : 0 < w.stash x → ProgReach w st x
+  | frame (x) : x ∈ held st → ProgReach w st x
+  | field (u x) : ProgReach w st u → u < w.next → x ∈ fieldsOf (w.heap u) → ProgReach w st x
+
+/-- **Nothing reachable from the program is ever selected**: at every collection pass of every execution, an
+object reachable from a pointer the program holds — directly or through any chain of `Cc` fields, whether their owner
+traces them or not — is not among the objects the pass will finalize or reclaim. -/
+theorem reachable_object_not_candidate (c : Cfg) (nH nW nK : Nat) (w : World) (h : Reachable c nH nW nK w)
+    (rest : List Frame) (hs : w.stack = .collectPass :: rest) (x : Id) (hr : ProgReach w rest x) :
+    x ∉ candidates { w with stack := rest } := by
+  have key := reachable_pass_candidates_unreferenced c nH nW nK w h rest hs
+  induction hr with
+  | table y hy => intro hc; have := (key y hc).1; have := count_pos_of_mem hy; omega
+  | stash y hy => intro hc; have := (key y hc).2.1; omega
+  | frame y hy => intro hc; have := (key y hc).2.2.1; have := count_pos_of_mem hy; omega
+  | field u y _ hu hy ih => intro hc; exact ih ((key y hc).2.2.2 u hu hy).1
+
+/-- **No dangling pointer, ever**: in every reachable world the target of every pointer that exists is a box that has
+not been freed. -/
+theorem no_dangling_pointer (c : Cfg) (nH nW nK : Nat) (w : World) (h : Reachable c nH nW nK w) (x : Id)
+    (hp : 0 < refs w x) : (w.heap x).boxLive = true := by
+  have ha := reachable_all c nH nW nK w h
+  have hle := ha.counts.le x
+  exact OI.boxLive_of_rc ha.inv.oi (x := x) (by show (w.heap x).rc ≠ 0; omega)
+
+/-- Non-vacuity: a reachable world in which a pass is about to run with a non-empty candidate list (a garbage
+2-cycle next to a live object). -/
+def exCfg : Cfg := {}
+def exSpec : NewSpec := { ns := 1, nu := 0, nw := 0, cleaner := false, fin := 0, drp := 0 }
+def exProg : List Op :=
+  [.new 0 exSpec, .new 1 exSpec, .new 2 exSpec, .setf (.of (.h 0)) (.f 0) (.h 1), .setf (.of (.h 1)) (.f 0) (.h 0),
+   .drop 0, .drop 1]
+def exW : World := exProg.foldl (execTop exCfg 100) (World.init exCfg 3 0 0)
+/-- the world just before the collection pass of a `collect` -/
+def exPass : World := run exCfg 2 { exW with stack := [.script [.collect] none none true, .catchTop], events := [], ret := .ok }
+example : (match exPass.stack.head? with | some .collectPass => true | _ => false) = true ∧
+    candidates { exPass with stack := exPass.stack.tail } = [0, 1] := by decide
 
 end RustCc.C01
